@@ -34,6 +34,8 @@ def main():
     wt = tempfile.mkdtemp(prefix='mutcheck_', dir='/tmp')
     os.rmdir(wt)
     try:
+        if '--no-demo' in args:
+            raise StopIteration
         rc, o = sh(['git', '-C', '/repo', 'worktree', 'add', '-q', wt, 'HEAD'])
         assert rc == 0, o
         os.makedirs(os.path.join(wt, '_mutant'))
@@ -54,6 +56,8 @@ def main():
                        env=dict(os.environ, OPENBLAS_NUM_THREADS='1', OMP_NUM_THREADS='1'))
             out['baseline_ok'] = rc == 0
             out['baseline_tail'] = o[-300:]
+    except StopIteration:
+        out['patch_applies'] = True
     finally:
         sh(['git', '-C', '/repo', 'worktree', 'remove', '--force', wt])
     # run the checks against /repo with the patch applied (one evaluation at a time: /repo is shared)
@@ -66,7 +70,9 @@ def main():
         rc, o = sh(['git', '-C', '/repo', 'status', '--porcelain'])
         assert o.strip() == '', '/repo has uncommitted changes: ' + o
     rc, o = sh(['git', 'apply', patch], cwd=target)
-    assert rc == 0, o
+    if rc != 0:
+        out['patch_applies'] = False; out['apply_output'] = o[-300:]
+        print(json.dumps(out, indent=1)); return
     res = {}
     try:
         for c in checks:
